@@ -219,10 +219,11 @@ def fold16 : List Nat → Nat → List Nat → List Nat
 def wideToString (a : List Nat) : Option Bytes :=
   Utf.fromWide (a.map Int.ofNat ++ [0])
 
-/-- `TextFile(path).text()` on an existing file with this content (`none` = the wide-string converter
-    would read outside its input; never happens, see `text_total`) -/
-def text (content : Bytes) : Option Bytes :=
-  let n := content.length &&& sizeMask
+/-- the body of `TextFile::text()` once `int n = (int)(size() & mask)` is known and the file is open at its
+    beginning with these bytes (`none` = the wide-string converter would read outside its input; never
+    happens, see `text_total`).  `n` comes from the object's *cached* stat information, so it need not be the
+    length of `content`. -/
+def textN (n : Nat) (content : Bytes) : Option Bytes :=
   if 2 ≤ n then
     match content with
     | h0 :: h1 :: body =>
@@ -232,6 +233,10 @@ def text (content : Bytes) : Option Bytes :=
       else some (content.take n)
     | _ => some (content.take n)
   else some (content.take n)
+
+/-- `TextFile(path).text()` on an existing file with this content, through a fresh object (`size()` is the
+    file's length) -/
+def text (content : Bytes) : Option Bytes := textN (content.length &&& sizeMask) content
 
 /-! ## `Directory::copy` block loop -/
 
@@ -413,5 +418,148 @@ def move (d : Disk) (src dst : Nat) (xdev : Bool) : Bool × Disk :=
       if r.1 then remove r.2 src else (false, r.2)
     else if src = dst then (true, d)
     else (true, (d.set dst (some c)).set src none)
+
+/-! ## persistent `File` / `TextFile` objects: the lazily opened handle and the cached `stat` information
+
+`File` keeps `_file` (null until something opens it; several members open it on demand and leave it open) and
+`mutable FileInfo _info` (filled by the first `size()/creationDate()/lastModified()/isDirectory()`, reused
+until `close()` — `_info = FileInfo()` — or `exists()` — `_info.clear()` — discards it; a failed `stat`
+leaves `size == -1`, which reads as "nothing cached").  The members are transcribed from include/asl/File.h,
+src/File.cpp and src/TextFile.cpp. -/
+
+/-- the cached `FileInfo`: nothing, or the size `stat` reported -/
+inductive Cache where
+  | empty
+  | size (n : Nat)
+deriving DecidableEq, Repr
+
+structure Obj where
+  path : Nat
+  isText : Bool
+  file : Option Handle
+  info : Cache
+deriving Repr
+
+/-- `File f(path)` / `TextFile f(path)` -/
+def Obj.new (p : Nat) (t : Bool) : Obj := { path := p, isText := t, file := none, info := .empty }
+
+/-- `getFileInfo(_path)` -/
+def statFetch (d : Disk) (p : Nat) : Cache :=
+  match d p with
+  | none => .empty
+  | some c => .size c.length
+
+/-- `if (!_info) _info = getFileInfo(_path);` -/
+def Obj.ensureInfo (d : Disk) (o : Obj) : Obj :=
+  match o.info with
+  | .empty => { o with info := statFetch d o.path }
+  | .size _ => o
+
+/-- `size()` -/
+def Obj.size (d : Disk) (o : Obj) : Int × Obj :=
+  let o' := o.ensureInfo d
+  (match o'.info with | .empty => -1 | .size n => n, o')
+
+/-- `exists()`: `_info.clear(); return creationDate().time() != 0;` -/
+def Obj.exists (d : Disk) (o : Obj) : Bool × Obj :=
+  let o' := { o with info := statFetch d o.path }
+  (o'.info != .empty, o')
+
+/-- `isFile()`: `creationDate().time() != 0 && !isDirectory()` (the paths of the protocol are never directories) -/
+def Obj.isFile (d : Disk) (o : Obj) : Bool × Obj :=
+  let o' := o.ensureInfo d
+  (o'.info != .empty, o')
+
+/-- `isDirectory()`, `lastModified()`, `creationDate()`: fill the cache like `size()` -/
+def Obj.touch (d : Disk) (o : Obj) : Obj := o.ensureInfo d
+
+/-- `close()`: `if (_file) fclose(_file); _file = 0; _info = FileInfo();` -/
+def Obj.close (o : Obj) : Obj := { o with file := none, info := .empty }
+
+/-- `open(mode)` on an object that is not open (`File::open(_path, mode)`, `TextFile::open` adds `TEXT`);
+    `_file` is null afterwards when `fopen` failed -/
+def Obj.open (d : Disk) (o : Obj) (mode : OpenMode) : Bool × Disk × Obj :=
+  let r := openH d o.path o.isText mode
+  (r.1.isSome, r.2, { o with file := r.1 })
+
+/-- `if (!_file && !open(mode)) …`: what every lazily opening member does first; `text` tells whether the
+    member calls `TextFile::open` (with `TEXT`) or `File::open` -/
+def Obj.lazyOpen (d : Disk) (o : Obj) (text : Bool) (mode : OpenMode) : Disk × Obj :=
+  match o.file with
+  | some _ => (d, o)
+  | none =>
+    let r := openH d o.path text mode
+    (r.2, { o with file := r.1 })
+
+/-- `File::write(p, n)` (also `File << x`) on an open object -/
+def Obj.write (d : Disk) (o : Obj) (bs : Bytes) : Nat × Disk × Obj :=
+  match o.file with
+  | none => (0, d, o)
+  | some h =>
+    let r := fwrite d h bs
+    (r.1, r.2.1, { o with file := some r.2.2 })
+
+/-- `TextFile::write(s)` / `put(s)` / `operator<<(s)` (`mode = WRITE`) and `append(s)` (`mode = APPEND`):
+    open in that mode only if the object is not open, then `fwrite(...) >= s.length()` -/
+def Obj.twrite (d : Disk) (o : Obj) (mode : OpenMode) (bs : Bytes) : Bool × Disk × Obj :=
+  let r := o.lazyOpen d true mode
+  match r.2.file with
+  | none => (false, r.1, r.2)
+  | some h =>
+    let w := fwrite r.1 h bs
+    (decide (w.1 ≥ bs.length), w.2.1, { r.2 with file := some w.2.2 })
+
+/-- `File::put(data)`: `open(_path, WRITE)` only if the object is not open, then `write(...) == length` -/
+def Obj.put (d : Disk) (o : Obj) (bs : Bytes) : Bool × Disk × Obj :=
+  let r := o.lazyOpen d false .write
+  match r.2.file with
+  | none => (false, r.1, r.2)
+  | some h =>
+    let w := fwrite r.1 h bs
+    (w.1 == bs.length, w.2.1, { r.2 with file := some w.2.2 })
+
+/-- `firstBytes(n)`: `open(_path)` (READ) only if the object is not open, then one `read` of `n` bytes from
+    wherever the handle stands; the object stays open -/
+def Obj.firstBytes (d : Disk) (o : Obj) (n : Nat) : Bytes × Obj :=
+  let r := o.lazyOpen d false .read
+  match r.2.file with
+  | none => ([], r.2)
+  | some h =>
+    let x := hread h n
+    (x.1, { r.2 with file := some x.2 })
+
+/-- `content()` = `firstBytes((int)size())`: the size is taken from the cache *before* the file is opened -/
+def Obj.content (d : Disk) (o : Obj) : Bytes × Obj :=
+  let s := o.size d
+  s.2.firstBytes d s.1.toNat
+
+/-- `read(p, n)` on an open object -/
+def Obj.read (o : Obj) (n : Nat) : Bytes × Obj :=
+  match o.file with
+  | none => ([], o)
+  | some h =>
+    let x := hread h n
+    (x.1, { o with file := some x.2 })
+
+/-- `(int)(size() & mask)` for a 64-bit `size()` (−1 when nothing could be cached) -/
+def sizeAnd (sz : Int) : Nat := (sz % 18446744073709551616).toNat &&& sizeMask
+
+/-- `TextFile::lines()`: open for reading only if not open, then read lines up to the end of the file
+    (afterwards the handle is at the end with the indicator set) -/
+def Obj.lines (d : Disk) (o : Obj) : List Bytes × Obj :=
+  let r := o.lazyOpen d true .read
+  match r.2.file with
+  | none => ([], r.2)
+  | some h => (linesLoop (readLineChunk - 2) h.rs [], { r.2 with file := some { h with rs := { rest := [], eof := true } } })
+
+/-- `TextFile::text()`: `n` from the cached size first, then open for reading only if not open, then the body
+    on the bytes in front of the handle.  The position the handle is left at is not modelled (the protocol
+    refuses further reads through this object until it is closed or reopened). -/
+def Obj.text (d : Disk) (o : Obj) : Option Bytes × Obj :=
+  let s := o.size d
+  let r := s.2.lazyOpen d true .read
+  match r.2.file with
+  | none => (some [], r.2)
+  | some h => (textN (sizeAnd s.1) h.rs.rest, { r.2 with file := some { h with rs := { rest := [], eof := true } } })
 
 end AslModel.FileText
